@@ -48,6 +48,7 @@ type ScopeCfg struct {
 	Stats   int
 	NoGoto  bool
 	Spaced  bool // token-per-space rendering instead of conventional formatting
+	NoMulti bool // no multiply-assigned globals (every global has at most one definition site)
 }
 
 // GenScopeWS builds a workspace of valid programs with shadowing, closures and cross-file globals.
@@ -64,6 +65,9 @@ func GenScopeWS(r *Rng, sc ScopeCfg) *ScopeWS {
 	}
 	singles := []string{"GAlpha", "GBeta", "GGamma", "GFunc", "GInner"}
 	multis := []string{"GMulti1", "GMulti2"}
+	if sc.NoMulti {
+		multis = nil
+	}
 	nevers := []string{"GNever1", "GNever2"}
 	globals := append(append(append([]string{}, singles...), multis...), nevers...)
 	// each single-definition global is defined exactly once, at top level of one file
